@@ -520,9 +520,11 @@ func (ht *HistoryTable) newRowItrForTableAtCommit(ctx *sql.Context, table *DoltT
 		}
 		for _, idx := range indexes {
 			if idx.ID() == lookup.Index.ID() {
-				histTable = lockedTable.IndexedAccess(ctx, lookup)
+				// |lookup.Index| describes the current schema of the table. The rows at this commit must be read with
+				// the index (and so the schema) of the table as it was at this commit.
+				newLookup := sql.IndexLookup{Index: idx, Ranges: lookup.Ranges}
+				histTable = lockedTable.IndexedAccess(ctx, newLookup)
 				if histTable != nil {
-					newLookup := sql.IndexLookup{Index: idx, Ranges: lookup.Ranges}
 					partIter, err = histTable.(sql.IndexedTable).LookupPartitions(ctx, newLookup)
 					if err != nil {
 						return nil, err
@@ -590,14 +592,15 @@ func (i *historyIter) Close(ctx *sql.Context) error {
 // are including the returned row. The hash |h| and commit metadata |meta| are used to augment the row with custom
 // fields for the dolt_history table to return commit metadata.
 func (ht *HistoryTable) rowConverter(ctx *sql.Context, srcSchema, targetSchema sql.Schema, h hash.Hash, meta *datas.CommitMeta, projections []uint64) func(row sql.Row) sql.Row {
-	srcToTarget := make(map[int]int)
+	// targetToSrc maps the index of a column in |targetSchema| to the index of the same column in |srcSchema|
+	targetToSrc := make(map[int]int)
 	for i, col := range targetSchema {
 		srcIdx := srcSchema.IndexOfColName(col.Name)
 		if srcIdx >= 0 {
 			// only add a conversion if the type is the same
 			// TODO: we could do a projection to convert between types in some cases
 			if srcSchema[srcIdx].Type.Equals(targetSchema[i].Type) {
-				srcToTarget[srcIdx] = i
+				targetToSrc[i] = srcIdx
 			} else {
 				if _, alreadyWarned := ht.conversionWarningsByColumn[col.Name]; !alreadyWarned {
 					ctx.Warn(1246, "Unable to convert field %s in historical rows because its type (%s) doesn't match "+
@@ -610,6 +613,10 @@ func (ht *HistoryTable) rowConverter(ctx *sql.Context, srcSchema, targetSchema s
 
 	return func(row sql.Row) sql.Row {
 		r := make(sql.Row, len(projections))
+		// The fields of |projections| that aren't commit metadata are the columns of |targetSchema|, in order. The
+		// position of a column in the incoming row is unrelated to either: |srcSchema| can have columns that
+		// |targetSchema| doesn't have, anywhere.
+		targetIdx := 0
 		for i, t := range projections {
 			switch t {
 			case schema.HistoryCommitterTag:
@@ -619,9 +626,10 @@ func (ht *HistoryTable) rowConverter(ctx *sql.Context, srcSchema, targetSchema s
 			case schema.HistoryCommitHashTag:
 				r[i] = h.String()
 			default:
-				if j, ok := srcToTarget[i]; ok {
-					r[j] = row[i]
+				if srcIdx, ok := targetToSrc[targetIdx]; ok {
+					r[i] = row[srcIdx]
 				}
+				targetIdx++
 			}
 		}
 		return r
